@@ -11,6 +11,8 @@ static void purge_event(int kind, void* addr, size_t len, int arg, int failed) {
   Exec* e = g_exec; if (!e || failed) return;
   if (kind == VF_ADVISE || kind == VF_PROTECT || kind == VF_UNMAP) {
     e->count(C_PURGE_CALLS); if (e->m.nlive >= 8) e->flag(F_PURGE_SEEN);
+    if (kind != VF_UNMAP) e->purge_calls_seen++;
+    { uintptr_t lo = (uintptr_t)addr, hi = lo + len; for (auto& w : e->watches) if (w.freed && !w.purged && lo < w.hi && w.lo < hi) w.purged = true; }
     if (!e->police_purge) return;
     uintptr_t lo = (uintptr_t)addr, hi = lo + len;
     auto it = e->m.live.lower_bound(lo);
@@ -54,6 +56,72 @@ static void gen_option_prefix(Gen& g, uint64_t idx) {
     g.out.push_back(Op("opt").s("name", OPT_DOMS[i].name).i("v", OPT_DOMS[i].vals[vi]));
   }
 }
+// ---------------------------------------------------------------- C18: purge after the delay, without a forced collect
+void Exec::op_c18(const Op& op) {
+  const std::string& nm = op.name;
+  if (nm == "watch") { int s0 = (int)op.num("s"), k = (int)op.num("k", 1); for (int i = 0; i < k; i++) { int s = s0 + i; if (s < 0 || s >= NSLOTS || !m.slots[s].live) continue; Blk& b = m.slots[s]; if (b.u <= 64*KiB) continue;   /* only blocks that own their page(s): freeing them frees whole pages at once (no retire delay, no sharing) */
+      Watch w; w.lo = (uintptr_t)b.p; w.hi = w.lo + b.u; w.slot = s; watches.push_back(w); } return; }
+  if (nm == "free_near") {   // ordinary activity in the same segment: free one more block that shares a segment with a freed, not yet purged region
+    int s0 = (int)op.num("s"), k = (int)op.num("k", 1); int pick = -1, first = -1;
+    for (int i = 0; i < k && pick < 0; i++) { int s = s0 + i; if (s < 0 || s >= NSLOTS || !m.slots[s].live) continue; if (first < 0) first = s;
+      for (auto& w : watches) if (w.freed && !w.purged && (w.lo >> 25) == ((uintptr_t)m.slots[s].p >> 25)) { pick = s; break; } }
+    last_free_near_seg = 0; if (pick >= 0) last_free_near_seg = ((uintptr_t)m.slots[pick].p >> 25);
+    if (pick < 0) pick = first; if (pick >= 0) free_slot(pick, "free"); return; }
+  if (nm == "expect") {
+    std::string what = op.str("what", "purged");
+    if (what == "none") { if (purge_calls_seen != 0) fail_now("purged-although-disabled", "op#%ld %ld purge call(s) (madvise/mprotect-none) were issued although purge_delay is -1", opi, purge_calls_seen); return; }
+    size_t nf = 0, segs = 0, pages = 0; size_t nfreed = 0; for (auto& w : watches) if (w.freed) nfreed++;
+    for (auto& w : watches) { if (!w.freed) continue;
+      // only evaluated when the premise holds: delay 0, or the clock passed delay*mult (+ extension per free) and ordinary activity followed
+      bool seg_sized = (w.hi - w.lo > 16*MiB);
+      if (opt_purge_delay > 0 && !w.purged && (w.spoiled || !(seg_sized ? w.saw_collect : w.saw_free_same_seg))) { count(C_EXCLUDED); continue; }
+      nf++; if (w.hi - w.lo > 16*MiB) segs++; else pages++;
+      if (!w.purged) fail_now("not-purged", "op#%ld freed region [%p,+%zu) (slot %d, freed at op#%ld) was never purged although the delay has long passed and ordinary activity followed (no forced collect)", opi, (void*)w.lo, (size_t)(w.hi - w.lo), w.slot, w.freed_op); }
+    if (segs >= 1 && pages >= 1) flag(F_PURGE_SEEN);
+    return; }
+}
+
+static Case gen_c18(Chooser& ch) {
+  Case c; static const std::vector<long> ds = { -1, 0, 5, 10, 10 }; long D = ch.of(ds); bool dec = ch.chance(2, 3); long M = ch.chance(1, 2) ? 10 : 1;
+  c.push_back(Op("opt").s("name", "purge_delay").i("v", D)); c.push_back(Op("opt").s("name", "purge_decommits").u("v", dec)); c.push_back(Op("opt").s("name", "arena_purge_mult").i("v", M));
+  if (!dec) {   // purge by reset only happens on fully committed ranges: make commits eager so that the expectation below is what the code promises
+    c.push_back(Op("opt").s("name", "eager_commit_delay").u("v", 0)); c.push_back(Op("opt").s("name", "arena_eager_commit").u("v", 1)); c.push_back(Op("opt").s("name", "eager_commit").u("v", 1)); }
+  else if (ch.chance(1, 3)) c.push_back(Op("opt").s("name", "eager_commit_delay").u("v", ch.pick(3)));
+  int slot = 0; size_t nfrees = 0;
+  auto allocs = [&](int k, size_t n) { int s0 = slot; for (int i = 0; i < k; i++) c.push_back(Op("alloc").u("s", (uint64_t)slot++).s("f", ch.chance(1, 4) ? "zalloc" : "malloc").u("n", n).u("nt", 1)); return s0; };
+  // a few ordinary small blocks first
+  int base = allocs((int)ch.range(1, 20), (size_t)ch.range(8, 2000)); (void)base;
+  bool w1 = ch.chance(4, 5), w2 = ch.chance(4, 5), w3 = ch.chance(1, 4); if (!w1 && !w2) w1 = true;
+  int keep0 = -1, keepk = 0;
+  if (w1) {   // whole pages inside a segment that stays in use
+    size_t n = (size_t)ch.range(64*KiB + 1, 4*MiB); int k = (int)ch.range(2, 6); int s0 = allocs(k, n); keepk = (int)ch.range(2, 4); keep0 = allocs(keepk, n);
+    c.push_back(Op("watch").u("s", (uint64_t)s0).u("k", (uint64_t)k)); c.push_back(Op("rfree").u("s", (uint64_t)s0).u("k", (uint64_t)k).u("step", 1).u("ph", 0)); nfrees += (size_t)k;
+    if (D == 0) c.push_back(Op("expect").s("what", "purged")); }
+  if (w2) {   // whole segments
+    int k = (int)ch.range(1, 3); int s0 = slot; for (int i = 0; i < k; i++) allocs(1, (size_t)ch.range(17*MiB, 60*MiB));
+    c.push_back(Op("watch").u("s", (uint64_t)s0).u("k", (uint64_t)k)); c.push_back(Op("rfree").u("s", (uint64_t)s0).u("k", (uint64_t)k).u("step", 1).u("ph", 0)); nfrees += (size_t)k;
+    if (D == 0) c.push_back(Op("expect").s("what", "purged")); }
+  if (w3) {   // free everything (the keepers too)
+    c.push_back(Op("watch").u("s", 0).u("k", (uint64_t)slot)); c.push_back(Op("rfree").u("s", 0).u("k", (uint64_t)slot).u("step", 1).u("ph", 0)); nfrees += (size_t)slot; keep0 = -1;
+    if (D == 0) c.push_back(Op("expect").s("what", "purged")); }
+  if (D == 0) return c;
+  long delay = (D < 0 ? 10 : D); size_t tick = (size_t)(delay * M) + 100 * nfrees + 1000 + (size_t)ch.range(0, 5000);
+  c.push_back(Op("tick").u("ms", tick));
+  // ordinary activity, never a forced collect
+  int rounds = (int)ch.range(1, 3);
+  for (int r = 0; r < rounds; r++) {
+    c.push_back(Op("collect").u("force", 0));
+    if (keep0 >= 0) c.push_back(Op("free_near").u("s", (uint64_t)keep0).u("k", (uint64_t)keepk));
+    int s = slot++; c.push_back(Op("alloc").u("s", (uint64_t)s).s("f", "malloc").u("n", (size_t)ch.range(64*KiB + 1, 2*MiB)).u("nt", 1)); c.push_back(Op("free").u("s", (uint64_t)s));
+    { int t = slot++; c.push_back(Op("alloc").u("s", (uint64_t)t).s("f", "malloc").u("n", (size_t)ch.range(17*MiB, 40*MiB)).u("nt", 1)); c.push_back(Op("free").u("s", (uint64_t)t)); }
+    c.push_back(Op("collect").u("force", 0));
+    c.push_back(Op("tick").u("ms", (size_t)ch.range(20, 3000)));
+  }
+  c.push_back(Op("collect").u("force", 0));
+  c.push_back(Op("expect").s("what", D < 0 ? "none" : "purged"));
+  return c;
+}
+
 // ---------------------------------------------------------------- C11: give-back at quiescence, no creep over repetitions
 struct Footprint { size_t mapped = 0, regions = 0, resident = 0, big_outside = 0, small_outside = 0, arena_resident = 0; uintptr_t first_big = 0; size_t first_big_len = 0; };
 static Footprint measure_footprint() {
@@ -144,6 +212,7 @@ static void exec_c11(const Case& c, Exec& ex) {
 
 static bool generate_special(const std::string& mode, Chooser& ch, uint64_t, Case& out) {
   if (mode == "C11") { out = gen_c11(ch); return true; }
+  if (mode == "C18") { out = gen_c18(ch); return true; }
   return false;
 }
 static bool execute_special(const std::string& mode, const Case& c, Exec& ex) {
